@@ -96,7 +96,11 @@ func (t *TNC) RegisterPort(port int, mycall string) (*Port, error) {
 }
 
 func (t *TNC) write(f frame) error {
-	_, err := f.WriteTo(t.conn)
+	// Frames are written by several goroutines (callers, outstanding frames polling, refusal of inbound
+	// connections). The connection keeps concurrent Write calls apart, so send header and data in one call.
+	var buf bytes.Buffer
+	f.WriteTo(&buf)
+	_, err := t.conn.Write(buf.Bytes())
 	if err == nil && f.DataKind != kindOutstandingFramesForConn {
 		debugf("-> %v", f)
 	}
